@@ -208,11 +208,20 @@ func genDeep(t *rapid.T) progCase {
 		f.Name, f.Var = fw.Pick(g.t, "fname", funPool), fw.Pick(g.t, "param", varPool)
 		bs := newScope(top)
 		bs.boundary, bs.inFunc, bs.funcDepth = true, true, 1
+		bs.recFun, bs.hideFun = f.Name, f.Name
 		bs.vars[f.Var] = &gVar{protected: true}
-		f.Body = g.recursiveBody(bs, f.Name, f.Var)
+		q := ""
+		if g.pct("recParam2", 50) {
+			// a second, optional parameter whose DEFAULT reads the first: every one of the 20-90 live invocations has its own
+			q = fw.Pick(g.t, "param2", filter(varPool, func(n string) bool { return n != f.Var }))
+			f.Params = []ref.PParam{{Name: f.Var}, {Name: q, Def: g.defaultExpr([]string{f.Var}, true)}}
+			bs.vars[q] = &gVar{keep: true}
+			top.sigs[f.Name] = gSig{n: 2, req: 1}
+		}
+		f.Body = g.recursiveBody(bs, f.Name, f.Var, q)
 		g.recHi = 0
 		top.funs[f.Name] = true
-		prog = append(prog, f, g.printStmt(&ref.PExpr{K: "call", Name: f.Name, A: lit(int64(depth - g.intn("short", 0, 3)))}))
+		prog = append(prog, f, g.printStmt(g.mkCall(top, f.Name, lit(int64(depth-g.intn("short", 0, 3))))))
 		prog = g.printVisible(top, prog)
 	} else {
 		if g.chance("withError", 15) {
@@ -268,7 +277,7 @@ func TestC15Deep(t *testing.T) {
 	fw.Run(t, fw.Spec[progCase]{
 		ID: "C15", Name: "deep", Quick: 1600, Thorough: 32000,
 		Gen: genDeep, Check: checkDeep,
-		Rule:        "one chain of 8-36 nested blocks (IF/ELSEIF/ELSE, both CASE forms, WHILE, WHILE..IN, invocation of a function declared at that level; at most three levels iterate twice), every level declaring variables / cursors / functions under the pool names, assigning to visible outer variables and printing everything visible after the inner levels ended; or (35%) one recursive function called 17-90 invocations deep whose invocations read their own parameter and locals after the inner invocation returned; same reference interpreter as the procedure check with limits 60000 steps / call depth 200; non-trivial = executed block depth >= 16 and (an outer object used again after its shadowing block ended, or recursion depth >= 16); distinct by depths + block tree + name pattern",
+		Rule:        "one chain of 8-36 nested blocks (IF/ELSEIF/ELSE, both CASE forms, WHILE, WHILE..IN, invocation of a function declared at that level; at most three levels iterate twice), every level declaring variables / cursors / functions under the pool names, assigning to visible outer variables and printing everything visible after the inner levels ended; or (35%) one recursive function called 17-90 invocations deep whose invocations read their own parameter and locals after the inner invocation returned (half of them with an optional second parameter whose DEFAULT is computed from the first parameter of the SAME invocation - the caller's parameter of that name is one block further out - and returned by the base case); same reference interpreter as the procedure check with limits 60000 steps / call depth 200; non-trivial = executed block depth >= 16 and (an outer object used again after its shadowing block ended, or recursion depth >= 16); distinct by depths + block tree + name pattern",
 		Assumptions: []string{"same discard rules as the procedure check; the chain's own functions carry names outside the pools so that nothing else calls them (work stays linear in the depth)"},
 	})
 }
